@@ -42,11 +42,16 @@ Lemma discard_keep_spec idx len : discard_keep idx len = idx. Proof. reflexivity
 (** * Lists *)
 Lemma go_index_some {A} (l : list A) i x :
   go_index l i = Some x -> (0 <= i)%Z /\ nth_error l (Z.to_nat i) = Some x.
-Proof. unfold go_index. destruct (i <? 0)%Z eqn:E; [discriminate|]. apply Z.ltb_ge in E. auto. Qed.
+Proof.
+  unfold go_index. destruct (i <? 0)%Z eqn:E; [discriminate|].
+  destruct (Z.of_nat (length l) <=? i)%Z; [discriminate|]. apply Z.ltb_ge in E. auto.
+Qed.
 
 Lemma go_index_nat {A} (l : list A) i : go_index l (Z.of_nat i) = nth_error l i.
 Proof.
-  unfold go_index. destruct (Z.of_nat i <? 0)%Z eqn:E; [apply Z.ltb_lt in E; lia|]. now rewrite Nat2Z.id.
+  unfold go_index. destruct (Z.of_nat i <? 0)%Z eqn:E; [apply Z.ltb_lt in E; lia|].
+  destruct (Z.of_nat (length l) <=? Z.of_nat i)%Z eqn:E2; simpl; [|now rewrite Nat2Z.id].
+  apply Z.leb_le in E2. symmetry. apply nth_error_None. lia.
 Qed.
 
 Lemma go_prefix_some {A} (l : list A) n p :
